@@ -215,7 +215,8 @@ def malformed_matrix(backend: str, s) -> List[Tuple[str, str, bool]]:
             out.append((f"declaration_for_{ob}", q(declaration(ob, "MyThings", so["collections"]["MyThings"])), True))
     main = s["main"]["coll"]
     for nm, call in (("call_no_args", f"e.{main}()"), ("call_two_args", f"e.{main}('A', 'B')"), ("call_int_arg", f"e.{main}(5)"), ("call_none_arg", f"e.{main}(None)"),
-                     ("call_expr_arg", f"e.{main}('A' + 'B')"), ("declared_no_args", "e.MyThings()"), ("declared_two_args", "e.MyThings('A', 'B')"), ("declared_float_arg", "e.MyThings(1.5)")):
+                     ("call_expr_arg", f"e.{main}('A' + 'B')"), ("call_str_plus_number", f"e.{main}('A', 30000.0)"), ("call_str_plus_bool", f"e.{main}('A', True)"), ("call_number_then_str", f"e.{main}(0, 'A')"),
+                     ("call_str_plus_none", f"e.{main}('A', None)"), ("declared_str_plus_number", "e.MyThings('A', 2)"), ("declared_no_args", "e.MyThings()"), ("declared_two_args", "e.MyThings('A', 'B')"), ("declared_float_arg", "e.MyThings(1.5)")):
         out.append((nm, q(base, "Select({ds}, lambda e: " + call + ".Count())"), True))
     sing = [n for n, c in s["collections"].items() if c["element"] is None]
     if sing:
@@ -270,7 +271,15 @@ def run(ctx: Ctx) -> int:
             (f"ds.Select(lambda e: {{'a': e.{main}('A'), 'b': e.{other}('O')}}).Select(lambda d: d.a.Select(lambda x: x.{v1}()).Sum() if d.b.Count() > 1 else d.a.Count() * 1.0)", [(main, "A"), (other, "O")]),
             (f"ds.Select(lambda e: (e.{main}('A'), e.{other}('O'))).Select(lambda t: (t[1].Count() > 0 and t[0].Count() > 0) or t[0].Count() > 5)", [(main, "A"), (other, "O")]),
         ]
-        for k, (q, used) in enumerate(fixed_forms):
+        # a collection fetched INSIDE the argument list of an injected C++ function (and of a built-in plug-in)
+        ufn = {"metadata_type": "add_cpp_function", "name": "UserMix", "include_files": ["cmath"], "arguments": ["a", "b"], "code": ["double t = a - b;", "auto result = std::sqrt(t * t) + 0.5 * b;"],
+               "return_type": "double"}
+        plugin_forms = [
+            (f"ds.Select(lambda e: UserMix(e.{main}('A').Count() * 1.0, e.{other}('O').Count() * 1.0))", [(main, "A"), (other, "O")]),
+            (f"ds.Select(lambda e: e.{main}('A').Select(lambda x: UserMix(x.{v1}(), e.{other}('O').Count() * 1.0)))", [(main, "A"), (other, "O")]),
+            (f"ds.Select(lambda e: e.{main}('A').Where(lambda x: UserMix(e.{main}('B').Count() * 1.0, x.{v1}()) > 1.0).Count())", [(main, "A"), (main, "B")]),
+        ]
+        for k, (q, used) in enumerate(fixed_forms + plugin_forms):
             evs = []
             for j in range(4):
                 RR = ctx.rng("c06sib", b, k, j)
@@ -279,7 +288,11 @@ def run(ctx: Ctx) -> int:
             for n in {n for n, _ in used}:
                 if not s["collections"][n].get("builtin", False):
                     md.append(declaration(b, n, s["collections"][n]))
-            cases.append(diff.Case(b, q, evs, md, schema=s, tag={"form": f"shared_variable_sibling_scopes_{k}", "used": used, "absent": None}))
+            plug = k >= len(fixed_forms)
+            if plug:
+                md.append(ufn)
+            cases.append(diff.Case(b, q, evs, md, schema=s, tag={"form": (f"inside_plugin_arguments_{k}" if plug else f"shared_variable_sibling_scopes_{k}"), "used": used, "absent": None},
+                                   extra_globals=({"UserMix": lambda a, b: abs(a - b) + 0.5 * b} if plug else None)))
     # the same executor first handles a query whose metadata REPLACES / declares collections, then a plain query: the plain
     # query must still fetch the built-in collections (declarations live for one query only)
     for b in sch.BACKENDS:
